@@ -186,3 +186,18 @@ def run(prog, chk):
     rs = fg.nodes(lambda x: x.kind == "raise")
     ok = any(fg.dominated([r], guard_edge=fg.edge_guard(lambda t_: unparse(t_) in ("s.st_size != size", "size != s.st_size"), "T")) for r in rs)
     chk.ob("R4.get-confirms-size", "get", ok, gt.loc, "local size mismatch raises")
+    # ... and against the size the server reported: a READ answered with the status EOF in mid-file ends the copy like
+    # the real end does, so only a comparison of the byte count with stat().st_size can tell a truncated copy
+    gf = prog.func("SFTPClient.getfo")
+    fgf = Flow(prog, gf, implicit=False)
+    szs = [unparse(n.ast.targets[0]) for n in fgf.nodes(lambda n: n.kind == "stmt" and isinstance(n.ast, ast.Assign) and M.is_call(getattr(n.ast.value, "value", None), name="self.stat")
+                                                          and isinstance(n.ast.value, ast.Attribute) and n.ast.value.attr == "st_size")]
+    cmpd = False
+    for fq in (gf, gt):
+        for c in walk_no_defs(fq.node):
+            if isinstance(c, ast.Compare) and len(c.ops) == 1 and isinstance(c.ops[0], (ast.NotEq, ast.Eq, ast.Lt, ast.Gt)):
+                sides = [unparse(c.left), unparse(c.comparators[0])]
+                if any(sv in sides for sv in szs) or any(".st_size" in x and "self.stat(" in x for x in sides):
+                    cmpd = True
+    chk.ob("R4.get-confirms-remote-size", "getfo", bool(szs) and cmpd, gf.loc,
+           "remote size %s from stat() is %s the number of bytes copied" % (szs or "?", "compared with" if cmpd else "never compared with"))
